@@ -34,4 +34,11 @@ theorem reference_shape (H : List UInt8 → List UInt8) (a b c : Hash) :
 theorem level_width (H : List UInt8 → List UInt8) (hs : List Hash) :
     (inplaceLevel H hs).length = (hs.length + 1) / 2 := inplaceLevel_length H hs
 
+/-- Concrete instance (with the identity as "hash"): three leaves pair as (1,2) and (3,3), in place and in the reference. -/
+example : inplaceLevel (fun x => x) [[1], [2], [3]] = [[1, 2], [3, 3]] ∧
+    refLevel (fun x => x) [[1], [2], [3]] = [[1, 2], [3, 3]] := by
+  constructor
+  · rw [level_eq_reference]; rfl
+  · rfl
+
 end Poly.Props.C03
